@@ -392,25 +392,25 @@ Definition helpers_survive {E} (eeqb : E -> E -> bool) (skip_dedup : bool) (surf
        | Err _ => True
        end.
 
-Theorem prune_preserves_wf {E} (eeqb : E -> E -> bool) skip_dedup (surfs : stable E) vols u0 u1 surfs' vols' :
+Theorem prune_preserves_wf {E} (eeqb : E -> E -> bool) skip_dedup (surfs : stable E) vols u0 u1 surfs' vols' ren' :
   refs_ok surfs vols -> u0 <> u1 -> helpers_survive eeqb skip_dedup surfs u0 u1 ->
-  prune eeqb skip_dedup surfs vols u0 u1 = Ok (surfs', vols') ->
+  prune eeqb skip_dedup surfs vols u0 u1 = Ok (surfs', vols', ren') ->
   refs_ok surfs' vols' /\ sides_ok vols'.
 Proof.
   intros Hrefs Hne Hh H. unfold prune in H. unfold helpers_survive in Hh.
-  assert (Hstep : forall s1 v1, refs_ok s1 v1 -> In u0 (keys s1) -> In u1 (keys s1) ->
+  assert (Hstep : forall s1 v1 (r1 : option (list (Z * Z))), refs_ok s1 v1 -> In u0 (keys s1) -> In u1 (keys s1) ->
             match remove_empty_volumes v1 u0 u1 with
-            | Some vols2 => Ok (s1, remove_unused_volumes vols2)
+            | Some vols2 => Ok (s1, remove_unused_volumes vols2, r1)
             | None => Err EFuel
-            end = Ok (surfs', vols') -> refs_ok surfs' vols' /\ sides_ok vols').
-  { intros s1 v1 R1 A B H1.
+            end = Ok (surfs', vols', ren') -> refs_ok surfs' vols' /\ sides_ok vols').
+  { intros s1 v1 r1 R1 A B H1.
     destruct (remove_empty_volumes_ok s1 v1 u0 u1 R1 A B Hne) as [v2 [E2 [R2 S2]]].
     rewrite E2 in H1. inversion H1; subst. apply remove_unused_volumes_ok; assumption. }
   destruct skip_dedup.
-  - destruct Hh as [A B]. apply (Hstep surfs vols); assumption.
+  - destruct Hh as [A B]. apply (Hstep surfs vols None); assumption.
   - destruct (remove_duplicate_surfaces eeqb surfs) as [[news ren]|e] eqn:Ed; [|discriminate].
     destruct (renumber_surfaces vols ren) as [v1|e] eqn:Er; [|discriminate].
-    destruct Hh as [A B]. apply (Hstep news v1); try assumption.
+    destruct Hh as [A B]. apply (Hstep news v1 (Some ren)); try assumption.
     eapply dedup_refs_ok; eassumption.
 Qed.
 
